@@ -36,6 +36,7 @@ type Case struct {
 	Backend string     `json:"backend"`        // mem | mmf
 	Ops     []Op       `json:"ops,omitempty"`
 	Every   int        `json:"every,omitempty"` // recover the allocated set after every n-th call (0: last call only)
+	RFrom   int        `json:"rfrom,omitempty"` // ... starting with this call
 	G       int        `json:"g,omitempty"`     // conc: goroutines
 	N       int        `json:"n,omitempty"`     // conc: calls per goroutine
 	Hold    int        `json:"hold,omitempty"`  // conc: blocks a goroutine holds at most
@@ -45,6 +46,36 @@ type Case struct {
 var page = int64(os.Getpagesize())
 
 var flags *hx.Flags
+
+// z prints a Z literal (the generated files open Z_scope)
+func z(v int64) string {
+	if v < 0 {
+		return fmt.Sprintf("(%d)", v)
+	}
+	return fmt.Sprint(v)
+}
+
+func zl(vs []int64) string {
+	s := make([]string, len(vs))
+	for i, v := range vs {
+		s[i] = z(v)
+	}
+	return hx.List(s)
+}
+
+// ranges prints an ascending list of indices as maximal ranges (first, last)
+func ranges(vs []int64) string {
+	var s []string
+	for i := 0; i < len(vs); {
+		j := i
+		for j+1 < len(vs) && vs[j+1] == vs[j]+1 {
+			j++
+		}
+		s = append(s, fmt.Sprintf("(%s,%s)", z(vs[i]), z(vs[j])))
+		i = j + 1
+	}
+	return hx.List(s)
+}
 
 func segSize(bs int64) int64 { return (8*bs + 1) * bs }
 
@@ -77,11 +108,11 @@ func coqOp(o Op) string {
 	case "A":
 		return "OArrange"
 	case "F":
-		return "OFree " + hx.Z(o.I)
+		return "OFree " + z(o.I)
 	case "B":
-		return "OBlock " + hx.Z(o.I)
+		return "OBlock " + z(o.I)
 	case "W":
-		return fmt.Sprintf("OWrite %s %d%%N", hx.Z(o.I), o.V)
+		return fmt.Sprintf("OWrite %s %d%%N", z(o.I), o.V)
 	case "R":
 		return "OReopen"
 	case "V":
@@ -168,7 +199,7 @@ func runSeq(c Case, s *hx.Sink, outDir string) string {
 		os.Remove(st.path)
 		defer os.Remove(st.path)
 	}
-	head := fmt.Sprintf("%s %s %s %s %s", hx.Z(page), hx.Z(c.Bs), hx.Z(c.Size), hx.Bool(c.Fit), initRuns(c.Init))
+	head := fmt.Sprintf("%s %s %s %s %s", z(page), z(c.Bs), z(c.Size), hx.Bool(c.Fit), initRuns(c.Init))
 	if err := st.open(true); err != nil {
 		// the storage itself could not be created: nothing to observe about Blocks
 		s.DirectViolation(c.ID, "storage could not be created", err.Error())
@@ -198,7 +229,7 @@ func runSeq(c Case, s *hx.Sink, outDir string) string {
 			ctor = "(CErr " + errName(err) + ")"
 			b = nil
 		} else {
-			ctor = fmt.Sprintf("(COk %s %s %s)", hx.Z(int64(b.Segments())), hx.Z(int64(b.Count())), hx.Z(int64(b.Available())))
+			ctor = fmt.Sprintf("(COk %s %s %s)", z(int64(b.Segments())), z(int64(b.Count())), z(int64(b.Available())))
 		}
 	}()
 	s.Count("ctor:" + strings.Trim(strings.SplitN(ctor, " ", 3)[0]+" "+errPart(ctor), "() "))
@@ -217,7 +248,7 @@ func runSeq(c Case, s *hx.Sink, outDir string) string {
 		for _, i := range idxs {
 			blk, err := b.Block(int(i))
 			if err != nil || len(blk) == 0 {
-				finals = append(finals, fmt.Sprintf("mkRead %s 0%%N 0%%N false", hx.Z(i)))
+				finals = append(finals, fmt.Sprintf("mkRead %s 0%%N 0%%N false", z(i)))
 				continue
 			}
 			uni := true
@@ -227,7 +258,7 @@ func runSeq(c Case, s *hx.Sink, outDir string) string {
 					break
 				}
 			}
-			finals = append(finals, fmt.Sprintf("mkRead %s %d%%N %d%%N %s", hx.Z(i), blk[0], blk[len(blk)-1], hx.Bool(uni)))
+			finals = append(finals, fmt.Sprintf("mkRead %s %d%%N %d%%N %s", z(i), blk[0], blk[len(blk)-1], hx.Bool(uni)))
 		}
 	}
 	for n, o := range c.Ops {
@@ -244,7 +275,7 @@ func runSeq(c Case, s *hx.Sink, outDir string) string {
 				if err != nil {
 					out = "OutErr " + errName(err)
 				} else {
-					out = "OutIdx " + hx.Z(int64(idx))
+					out = "OutIdx " + z(int64(idx))
 				}
 			case "F":
 				if err := b.FreeBlock(int(o.I)); err != nil {
@@ -257,7 +288,7 @@ func runSeq(c Case, s *hx.Sink, outDir string) string {
 				if err != nil {
 					out = "OutErr " + errName(err)
 				} else {
-					out = fmt.Sprintf("OutSlice %s %s", hx.Z(offsetIn(st.whole, blk)), hx.Z(int64(len(blk))))
+					out = fmt.Sprintf("OutSlice %s %s", z(offsetIn(st.whole, blk)), z(int64(len(blk))))
 				}
 			case "W":
 				blk, err := b.Block(int(o.I))
@@ -292,17 +323,17 @@ func runSeq(c Case, s *hx.Sink, outDir string) string {
 					out = "OutOk"
 				}
 			case "V":
-				out = "OutN " + hx.Z(int64(b.Available()))
+				out = "OutN " + z(int64(b.Available()))
 			case "C":
-				out = "OutN " + hx.Z(int64(b.Count()))
+				out = "OutN " + z(int64(b.Count()))
 			case "S":
-				out = "OutN " + hx.Z(int64(b.Segments()))
+				out = "OutN " + z(int64(b.Segments()))
 			}
 		}()
 		s.Count("op:" + o.K)
 		s.Count("out:" + outClass(out))
 		if st.buf == nil {
-			steps = append(steps, fmt.Sprintf("mkStep (%s) (%s) 0%%Z 0%%Z None", coqOp(o), out))
+			steps = append(steps, fmt.Sprintf("st (%s) (%s) 0 0 None", coqOp(o), out))
 			break
 		}
 		avail := int64(b.Available())
@@ -316,7 +347,7 @@ func runSeq(c Case, s *hx.Sink, outDir string) string {
 		}()
 		last := n == len(c.Ops)-1
 		rset := "None"
-		want := last || (c.Every > 0 && (n+1)%c.Every == 0)
+		want := last || (c.Every > 0 && n >= c.RFrom && (n+1)%c.Every == 0)
 		if want {
 			if last {
 				readFinals()
@@ -345,13 +376,13 @@ func runSeq(c Case, s *hx.Sink, outDir string) string {
 				want = false
 			}
 			if want {
-				rset = "(Some " + hx.ZList(set) + ")"
+				rset = "(Some " + ranges(set) + ")"
 				if !sane {
 					s.DirectViolation(c.ID, "recovering the allocated set from the reopened bytes: FreeBlock gave an unexpected error or Available() != Count() after freeing everything", n)
 				}
 			}
 		}
-		steps = append(steps, fmt.Sprintf("mkStep (%s) (%s) %s %s %s", coqOp(o), out, hx.Z(avail), hx.Z(ravail), rset))
+		steps = append(steps, fmt.Sprintf("st (%s) (%s) %s %s %s", coqOp(o), out, z(avail), z(ravail), rset))
 	}
 	return fmt.Sprintf("CSeq %s (mkSeq %s %s %s %s)", hx.N(c.ID), head, ctor, hx.List(steps), hx.List(finals))
 }
@@ -378,7 +409,7 @@ func errPart(ctor string) string {
 func initRuns(in [][3]int64) string {
 	s := make([]string, len(in))
 	for i, r := range in {
-		s[i] = fmt.Sprintf("(%s, %s, %d%%N)", hx.Z(r[0]), hx.Z(r[1]), r[2])
+		s[i] = fmt.Sprintf("(%s, %s, %d%%N)", z(r[0]), z(r[1]), r[2])
 	}
 	return hx.List(s)
 }
@@ -409,7 +440,7 @@ func bsClass(bs int64) string {
 func main() {
 	fl := hx.ParseFlags()
 	flags = fl
-	s := hx.NewSink(fl, "From Coq Require Import List ZArith NArith.\nFrom GL Require Import model.Blocks run.Run_C17.\nImport ListNotations.\n", "case")
+	s := hx.NewSink(fl, "From Coq Require Import List ZArith NArith.\nFrom GL Require Import model.Blocks run.Run_C17.\nImport ListNotations.\nOpen Scope Z_scope.\n", "case")
 	s.Extra["page_size"] = page
 	run := func(c Case) {
 		var term string
